@@ -327,7 +327,7 @@ class C10(Scenario):
         if profile == "nested-sparse":
             # two levels of sparse containers; the accumulator is reloaded from JSON and the bin that comes first in it is a
             # nested sparse container that has only seen NaN (no bins: it knows nothing about what lies below)
-            leaf = specmod.gen_spec(rng.fork("leaf"), specmod.merge_opts(depth=1, max_nodes=2, max_num=3, prims=["Bin", "Bag", "Stack", "IrregularlyBin", "CentrallyBin"]))
+            leaf = specmod.gen_spec(rng.fork("leaf"), specmod.merge_opts(depth=2, max_nodes=3, max_num=3, prims=["Bin", "Bag", "Stack", "IrregularlyBin", "CentrallyBin"]))
             inner = {"p": "SparselyBin", "binWidth": 1.0, "origin": 0.0, "q": {"f": "x", "kind": "lambda"}, "value": leaf, "nanflow": None}
             outer = {"p": "Categorize", "q": {"f": "s", "kind": "lambda"}, "value": inner} if k.chance(0.5) else \
                 {"p": "SparselyBin", "binWidth": 1.0, "origin": 0.0, "q": {"f": "y", "kind": "lambda"}, "value": inner, "nanflow": None}
@@ -335,8 +335,9 @@ class C10(Scenario):
             recs2 = [dict(base, s="a", y=0.5, x=float("nan")), dict(base, s="b", y=1.5, x=0.5), dict(base, s="c", y=2.5, x=0.5), dict(base, s="c", y=2.5, x=3.5)]
             muts = [(dsc, m) for dsc, m in structural_mutants(outer) if _valid_spec(m) and dsc.split("@")[1].startswith("value/value")]
             steps = [{"op": "misdeliver", "what": dsc, "mutant": m, "form": f} for dsc, m in muts for f in FORMS]
-            flavour = k.pick(["first-bin-empty", "first-bin-empty", "live-after-good-merge", "learned-by-iadd"])
-            base_case = {"spec": outer, "records": [specmod.enc_record(r) for r in recs2 + [dict(base, s="a", y=0.5, x=0.5)]], "steps": steps,
+            flavour = k.pick(["first-bin-empty", "first-bin-empty", "live-after-good-merge", "learned-by-iadd", "template-learned-by-iadd"])
+            base_case = {"spec": outer, "records": [specmod.enc_record(r) for r in recs2 + [dict(base, s="a", y=0.5, x=0.5), dict(base, s="b", y=1.5, x=float("nan"))]],
+                         "steps": steps,
                          "p_fill": [[2, 1.0], [3, 2.0]], "tol": 0.0, "tolmode": "both", "vary_label_order": False, "flavour": flavour}
             if flavour == "live-after-good-merge":
                 # both operands live; the accumulator is the sum of two compatible partials (an earlier, successful merge of
@@ -346,6 +347,10 @@ class C10(Scenario):
                 # the reloaded accumulator knows nothing below its only, NaN-only bin until a compatible partial of the same
                 # category is merged into it in place; what it learnt then must count when the foreign partial arrives
                 base_case.update(acc_fill=[[0, 1.0]], acc_fill2=None, reload_acc=True, reload_p=k.chance(0.3), pre_iadd=[[4, 1.0]])
+            elif flavour == "template-learned-by-iadd":
+                # as before, but the compatible live partial has only seen NaN in *another* bin: the accumulator now holds an
+                # uninformed reloaded bin followed by a live one that has no bins either but carries the value template
+                base_case.update(acc_fill=[[0, 1.0]], acc_fill2=None, reload_acc=True, reload_p=k.chance(0.3), pre_iadd=[[5, 1.0]], live_knowledge=True)
             else:
                 base_case.update(acc_fill=[[0, 1.0], [1, 1.0]], acc_fill2=None, reload_acc=True, reload_p=k.chance(0.3))
             return base_case
@@ -492,7 +497,11 @@ class C10(Scenario):
             zacc, zp = call(lambda: observe.observe(acc.zero())), call(lambda: observe.observe(p.zero()))
             da, dp = observe.observe(acc), observe.observe(p)
             form = st["form"]
-            if (case.get("reload_acc") or case.get("reload_p")) and not visible_mismatch(da["type"], da["data"], dp["type"], dp["data"]):
+            if case.get("live_knowledge"):
+                # the accumulator absorbed a live partial: the value templates that came with it are part of what it knows,
+                # although its document does not show them
+                w.bump("probe_knowledge_in_live_template_only")
+            elif (case.get("reload_acc") or case.get("reload_p")) and not visible_mismatch(da["type"], da["data"], dp["type"], dp["data"]):
                 # the difference lies below a sparse container that is still empty: the documents do not record it, so
                 # nothing can be demanded of operands that were reloaded from them
                 w.bump("probe_mismatch_invisible_after_reload")
